@@ -782,26 +782,24 @@ theorem tipMax_of_frame (r r' : Repo) (hm : TipMax r) (hb : r'.branches = r.bran
 theorem tipMax_markInvalid (r : Repo) (hm : TipMax r) (id : Nat) (hs : (markInvalid r id).2 = none) :
     TipMax (markInvalid r id).1 := by
   unfold markInvalid at hs ⊢
-  split
-  · exact hm
-  · have hm1 : TipMax (saveInvalid { r with invalid := r.invalid ++ [id] }) := tipMax_of_frame r _ hm rfl rfl (fun _ _ => rfl)
-    rename_i hc
-    rw [if_neg hc] at hs
-    dsimp only at hs ⊢
-    cases hfind : (saveInvalid { r with invalid := r.invalid ++ [id] }).branchesFind id with
-    | none => exact hm1
-    | some x =>
-      obtain ⟨bi, h⟩ := x
-      rw [hfind] at hs
+  have hm1 : TipMax (markRecord r id) :=
+    tipMax_of_frame r _ hm (markRecord_frame r id).2.1 (markRecord_frame r id).2.2
+      (fun _ _ => by rw [(markRecord_frame r id).1])
+  dsimp only at hs ⊢
+  cases hfind : (markRecord r id).branchesFind id with
+  | none => exact hm1
+  | some x =>
+    obtain ⟨bi, h⟩ := x
+    rw [hfind] at hs
+    simp only at hs ⊢
+    cases ht : trim (markRecord r id) bi h with
+    | error e => rw [ht] at hs; cases hs
+    | ok r2 =>
+      rw [ht] at hs
       simp only at hs ⊢
-      cases ht : trim (saveInvalid { r with invalid := r.invalid ++ [id] }) bi h with
-      | error e => rw [ht] at hs; cases hs
-      | ok r2 =>
-        rw [ht] at hs
-        simp only at hs ⊢
-        cases hl : longestOf r2.arena r2.branches with
-        | none => rw [hl] at hs; cases hs
-        | some lg => exact tipMax_of_longestOf r2 lg hl
+      cases hl : longestOf r2.arena r2.branches with
+      | none => rw [hl] at hs; cases hs
+      | some lg => exact tipMax_of_longestOf r2 lg hl
 
 /-- **C01 over forest histories with maintenance and marks**: submissions (forks, overtakes, automatic
     cleans), explicit Cleans with any depth and Saves — complete or failed at any stage —, marking headers
